@@ -18,7 +18,7 @@ class PreludeMixin:
                 'float', 'bool', 'isinstance', 'all', 'any', 'zip', 'enumerate', 'reversed', 'sum', 'abs', 'round',
                 'getattr', 'pow', 'iter', 'next', 'type', 'repr', 'print', 'frozenset', 'hasattr'}
     SPEC_BUILTINS = {'vec_le', 'vec_ge', 'vec_lt', 'vec_eq', 'vec_zero', 'dom', 'is_none', 'to_real', 'length',
-                     'keys_subset', 'str_to_int', 'alive', 'in_prefix', 'name_of', 'str_of', 'clock_now', 'eps', 'rdiv', 'is_int', 'ext', 'fs_kind', 'fs_target', 'path', 'fs_content', 'fs_ctime', 'yaml_of', 'zk_path', 'str_fn', 'split_part', 'split_count', 'str_to_real', 'str_is_real', 'zk_exists', 'zk_owner', 'zk_content', 'dict_update_opt', 'dict_put', 'dict_del', 'set_put', 'set_del', 'counter_inc', 'is_digits', 'select', 'strlen', 'cls_is', 'distinct_list'}
+                     'keys_subset', 'str_to_int', 'alive', 'in_prefix', 'name_of', 'str_of', 'clock_now', 'eps', 'rdiv', 'is_int', 'ext', 'fs_kind', 'fs_target', 'path', 'fs_content', 'fs_ctime', 'yaml_of', 'zk_path', 'str_fn', 'any_tok', 'any_get', 'split_part', 'split_count', 'str_to_real', 'str_is_real', 'zk_exists', 'zk_owner', 'zk_content', 'dict_update_opt', 'dict_put', 'dict_del', 'set_put', 'set_del', 'counter_inc', 'is_digits', 'select', 'strlen', 'cls_is', 'distinct_list'}
     LIB_CONSTS = {'errno.ENOENT': 2, 'errno.EEXIST': 17, 'errno.EINVAL': 22, 'sys.maxsize': 9223372036854775807, 'np.inf': INF, 'numpy.inf': INF, 'math.inf': INF}
     LIB_MODULES_ALIAS = {}
     LIB_MODULES = {'six.moves', 'os.path', 'six.moves.urllib', 'np.random'}
@@ -1059,6 +1059,8 @@ class PreludeMixin:
             return res
         if isinstance(k, KDict):
             return SVal(KSet(k.key), [v.t[0]])
+        if isinstance(v, tuple) and v and v[0] == 'view' and v[1] == 'keys':
+            return SVal(KSet(v[2].kind.key), [v[2].t[0]])        # set(d.keys()): the domain
         if isinstance(k, KList) and len(k.elem.sorts()) == 1:
             # set(list): x in S <=> x == L[j] for some j (witness index function)
             res = fresh_val(KSet(k.elem), 'lset')
@@ -1308,6 +1310,11 @@ class PreludeMixin:
             return ops.ite(other.t[0], base, upd)
         if name in ('zk_exists', 'zk_owner', 'zk_content'):
             return self.zk_spec(st, name, args)
+        if name == 'any_tok':
+            return self.any_token(st, args[0])
+        if name == 'any_get':
+            from core import KAny
+            return SVal(KAny, [self.any_get_fn(args[1])(self.any_token(st, args[0]).z)])
         if name == 'split_part':
             return SVal(KStr, [SPLIT_PART(lift(args[0], KStr).z, lift(args[1], KStr).z, lift(args[2], KInt).z, lift(args[3], KInt).z)])
         if name == 'split_count':
